@@ -309,7 +309,12 @@ def _dtype_functions():
             ('kneedle.knee', kn.knee, ()), ('kneedle.knees', kn.knees, ()), ('kneedle.multi_knee', kn.multi_knee, ()), ('curvature.multi_knee', cu.multi_knee, ()),
             ('zmethod.knees', zm.knees, (0.1, 0.1, 0.25)), ('rdp.rdp', rdp.rdp, (0.05,)), ('rdp.rdp_fixed', rdp.rdp_fixed, (6,)), ('rdp.grdp', rdp.grdp, (0.05,)),
             ('convex_hull.graham_scan_lower', ch.graham_scan_lower, ()), ('linear_fit.linear_fit_points', lf.linear_fit_points, ()),
-            ('linear_fit.perpendicular_distance', lf.perpendicular_distance, ()), ('linear_fit.linear_hv_residuals_points', lf.linear_hv_residuals_points, ())]
+            ('linear_fit.perpendicular_distance', lf.perpendicular_distance, ()), ('linear_fit.linear_hv_residuals_points', lf.linear_hv_residuals_points, ()),
+            ('convex_hull.graham_scan', ch.graham_scan, ()), ('convex_hull.graham_scan_upper', ch.graham_scan_upper, ()),
+            ('linear_fit.r2_points', lf.r2_points, ()), ('linear_fit.linear_fit_residuals_points', lf.linear_fit_residuals_points, ()),
+            ('linear_fit.linear_fit_transform_points', lf.linear_fit_transform_points, ()),
+            ('menger.multi_knee', mg.multi_knee, ()), ('dfdt.multi_knee', df.multi_knee, ()), ('lmethod.multi_knee', lm.multi_knee, ()),
+            ('rdp.mp_grdp', rdp.mp_grdp, (0.05, 6)), ('rdp.min_point_rdp', rdp.min_point_rdp, ([0.001, 0.1, 0.01], 6))]
 
 
 def dtype_sweep(ctx, rounds):
@@ -324,7 +329,7 @@ def dtype_sweep(ctx, rounds):
            ('linear_fit.perpendicular_distance', lf.perpendicular_distance, ()), ('linear_fit.linear_hv_residuals_points', lf.linear_hv_residuals_points, ())]
     for _ in range(rounds):
         n = rng.randrange(8, 32)
-        kind = rng.choice(['near-chord', 'decay', 'walk', 'large'])
+        kind = rng.choice(['near-chord', 'decay', 'walk', 'large', 'bytecount'])
         x = np.cumsum([rng.choice([1, 1, 2, 3]) for _ in range(n)])
         if kind == 'near-chord':
             m = rng.choice([-4, -3, -2, 2, 3, 5])
@@ -334,6 +339,9 @@ def dtype_sweep(ctx, rounds):
             # byte-count / request-count sized integers with wide x steps: int64 intermediates (squares, products of squares) must not wrap
             x = x * rng.choice([50, 1000])
             y = np.array(sorted((rng.randrange(0, 200000) for _ in range(n)), reverse=True))
+        elif kind == 'bytecount':
+            # raw byte counts over small abscissae (k * 2^33): squares of height differences exceed 2^63 in the input's own dtype
+            y = np.array(sorted((rng.randrange(0, 4096) for _ in range(n)), reverse=True)) * 2 ** 33
         elif kind == 'decay':
             y = np.array(sorted((rng.randrange(0, 100) for _ in range(n)), reverse=True))
         else:
